@@ -176,7 +176,9 @@ theorem bintree_leaf_pos_iter_exact (pos : Nat) (h : pos + 2 < 2^64) :
     by_cases hz : (peakMapHeight (bintreeRightmost pos)).2 = 0
     · simp only [hz, if_true, Option.some.injEq] at hb; omega
     · simp only [hz, if_false] at hb; cases hb
-  unfold U64.bintreeLeafPosIter bintreeLeafPosIter
+  -- (`delta`, not `unfold`: `unfold` tries to reduce the `match` and for that evaluates the
+  -- discriminants, i.e. `peak_map_height` of a symbolic position)
+  delta U64.bintreeLeafPosIter bintreeLeafPosIter
   rw [bintree_leftmost_exact pos h]
   generalize pmmrLeafToInsertionIndex (bintreeLeftmost pos) = oa
   generalize hob : pmmrLeafToInsertionIndex (bintreeRightmost pos) = ob at hb2
